@@ -1820,12 +1820,16 @@ impl<'a, E: quiver_core::effects::Effect> Compiler<'a, E> {
             let local_index = self.local_count;
             self.local_count += 1;
 
+            // A name bound before is a new variable from here on: drop the narrowings and
+            // provenances recorded against the old one.
+            scopes::forget_variable(&mut self.scopes, variable_name);
+
             // Register in scope
             // For simple identifier bindings (single binding), preserve the value's provenance
             // so tuple field provenance is preserved. For complex patterns (destructuring),
             // use Unknown since path resolution is complex.
             let var_provenance = if bindings.len() == 1 {
-                value_provenance.clone()
+                value_provenance.without_variable(variable_name)
             } else {
                 Provenance::Unknown
             };
@@ -2004,7 +2008,7 @@ impl<'a, E: quiver_core::effects::Effect> Compiler<'a, E> {
             Some(scopes::Parameter {
                 ty: parameter_type,
                 index: param_local,
-                provenance: parameter_provenance,
+                provenance: parameter_provenance.clone(),
             }),
             scope_kind,
         ));
@@ -2056,6 +2060,10 @@ impl<'a, E: quiver_core::effects::Effect> Compiler<'a, E> {
                 })?;
                 scope.bindings.clear();
                 scope.narrowings = provenance::Narrowings::default();
+                // A binding of the previous branch may have shadowed the parameter's source.
+                if let Some(parameter) = &mut scope.parameter {
+                    parameter.provenance = parameter_provenance.clone();
+                }
 
                 // Re-apply the complement narrowings accumulated from ALL previous branches.
                 // Applying every accumulated complement — not just the immediately preceding
